@@ -27,7 +27,8 @@ LEVEL_TEXT = ("Requests and notifications over {core methods, registered tool/re
               ' Also handlers that await a future cancelled by a third party; a request id on an UNREGISTERED notifications/... name must be answered -32601.'
               ' Also handlers that are awaitable-returning callables of other kinds (object with async __call__, decorated, returning a Task, partial, bound method).'
               ' Also the reserved _meta member in every JSON type.'
-              ' Also requests that follow a notification naming their id (cancelled, progress) on a server whose application registers no handler for it.')
+              ' Also requests that follow a notification naming their id (cancelled, progress) on a server whose application registers no handler for it.'
+              ' Also tools whose ordinary return value looks like a tool result (a content member that is text, null, strings, a number, typed blocks; isError; structuredContent).')
 LEVEL_NOTE = ("Trusted: vf/ref.py validator; the error-class table in this file (where the statement is silent - empty "
               "method string, non-hashable names, bad arguments to a known tool - every reasonable code is accepted).")
 RULE = ("case = (method, id or none, params shape, representation). Non-trivial: all. distinct = hash(case)+hash(outcome "
